@@ -412,6 +412,9 @@ func (res *propResult) finish(id, tier string, seed int, known []knownFinding, v
 			writeJSON(path, rep)
 		}
 		fmt.Printf("%s %s %s %s: %s — %s\n", strings.ToUpper(v.Status), v.Rule, v.Pos, v.Key, v.Required, firstLine(v.Detail))
+		if os.Getenv("ESCALINT_SHOW_FOUND") != "" && v.Found != "" {
+			fmt.Printf("    found: %s\n", v.Found)
+		}
 		fmt.Printf("VIOLATION property=%s replay=%s\n", id, path)
 	}
 	if len(violations) > 0 {
